@@ -7,6 +7,9 @@
  * @license GPL v2+
  */
 #include "output.h"
+#ifdef UNCRUSTIFY_VERIF
+#include "verif_hooks.h"
+#endif
 
 #include "align/tab_column.h"
 #include "braces.h"
@@ -789,6 +792,9 @@ void output_text(FILE *pfile)
 
       cpd.frag_cols = 0;
    }
+#ifdef UNCRUSTIFY_VERIF
+   verif::dump_fin();
+#endif
 
    if (tracking_is_on)
    {
@@ -834,6 +840,9 @@ void output_text(FILE *pfile)
       char copy[1000];
       LOG_FMT(LCONTTEXT, "%s(%d): Text() is '%s', type is %s, orig line is %zu, column is %zu, nl is %zu\n",
               __func__, __LINE__, pc->ElidedText(copy), get_token_name(pc->GetType()), pc->GetOrigLine(), pc->GetColumn(), pc->GetNlCount());
+#ifdef UNCRUSTIFY_VERIF
+      verif::out_begin(pc);
+#endif
       cpd.output_tab_as_space = false;
 
       if (pc->Is(CT_NEWLINE))
@@ -1122,7 +1131,14 @@ void output_text(FILE *pfile)
          cpd.did_newline       = pc->IsNewline();
          cpd.output_trailspace = false;
       }
+#ifdef UNCRUSTIFY_VERIF
+      verif::out_end(pc);
+#endif
    } // loop over the whole chunk list
+
+#ifdef UNCRUSTIFY_VERIF
+   verif::out_close();
+#endif
 
    if (tracking_is_on)
    {
